@@ -91,13 +91,21 @@ def handleTrap (line : String) : String :=
       let mine := s!"{kind} {showRegs mach.regs} {mach.cycles}"
       let gr := " ".intercalate (words gres)
       let go_obs := " ".intercalate (words gobs)
+      let storesOf (t : Array Event) := t.toList.filter (·.write)
+      let goEvents : List Event := if base == "sparse" then ((words gobs).drop 1).filterMap parseEvent else []
+      let storesDiffer := base == "sparse" && goEvents.filter (·.write) != storesOf mach.mem.inner.trace
       let diffs : List String :=
         (if gr != mine then [s!"result:model={mine.replace " " "_"}"] else []) ++
-        (if go_obs != obsOf mach.mem.inner then ["memory"] else [])
+        (if storesDiffer then ["stores"] else []) ++
+        -- only the loads differ: not this property's business (loads are never intercepted), kept for C03
+        (if base == "sparse" && !storesDiffer && go_obs != obsOf mach.mem.inner then ["loads"] else []) ++
+        (if base != "sparse" && go_obs != obsOf mach.mem.inner then ["memory"] else [])
       -- the specification-level oracle: scripts that leave the registers alone (kinds 0, 3, no script)
       let specKinds := path == "N" || k == 0 || k == 3 || k > 6
       let viol : List String :=
-        if !specKinds then (if diffs.isEmpty then [] else ["C10:trap:" ++ ",".intercalate (diffs.map fun d => (d.splitOn ":").head!)])
+        if !specKinds then
+          (let ds := diffs.filter (· != "loads")
+           if ds.isEmpty then [] else ["C10:trap:" ++ ",".intercalate (ds.map fun d => (d.splitOn ":").head!)])
         else
           match specRunB bus model 20000 { regs0 with pc := 0x0800 } { inner := sb0, log := [] } 0 with
           | none => []
